@@ -38,6 +38,11 @@ def bounded(seed: int = 0, **_: Any) -> Dict[str, Any]:
         (root / "snippets").mkdir()
         for name, content in c02.SNIPPETS.items():
             (root / "snippets" / name).write_text(content, encoding="utf-8")
+        # a root snippet with an import: XML Schema wants inclusions and imports before all definitions
+        (root / "snippets" / "root_element.xml").write_text(
+            '<xs:schema xmlns:xs="http://www.w3.org/2001/XMLSchema" xmlns="https://dummy.com" '
+            'elementFormDefault="qualified" targetNamespace="https://dummy.com">\n'
+            '    <xs:import namespace="http://www.w3.org/XML/1998/namespace"/>\n</xs:schema>', encoding="utf-8")
         for k, (what, text) in enumerate(_models()):
             model = root / f"model_{k}.py"
             model.write_text(text, encoding="utf-8")
